@@ -170,19 +170,31 @@ class Run:
                 self.ev('log', who, self.now(), main.current_tt._seconds,
                         None if c is None else c.beats)
             elif op == 'send':
-                self.ev('send', who, 'bundle', st[2], self.now())
+                self.ev('send', who, 'bundle', st[2], self.now(),
+                        main.current_tt._seconds)
                 self._addr().send_bundle(st[1], ['/t', st[2]])
             elif op == 'sendm':
-                self.ev('send', who, 'msg', st[1], self.now())
+                self.ev('send', who, 'msg', st[1], self.now(),
+                        main.current_tt._seconds)
                 self._addr().send_msg('/t', st[1])
             elif op == 'sendb':
-                self.ev('send', who, 'nested', st[3], self.now())
+                self.ev('send', who, 'nested', st[3], self.now(),
+                        main.current_tt._seconds)
                 self._addr().send_bundle(
                     st[1], ['/t', st[3]], [st[2], ['/u', st[3]]])
             elif op == 'play':
                 c = self.clocks[st[2]] if len(st) > 2 and st[2] else None
                 q = st[3] if len(st) > 3 else None
                 self.routines[st[1]].play(c, q)
+            elif op == 'spawn':
+                # create the routine here (inside the caller, so that it
+                # inherits the caller's random generator) and play it
+                from sc3.base.stream import Routine
+                r = Routine(self._body(st[1], self.prog['spawned'][st[1]]))
+                self.routines[st[1]] = r
+                self.names[id(r)] = st[1]
+                c = self.clocks[st[2]] if len(st) > 2 and st[2] else None
+                r.play(c, 0)
             elif op == 'pause':
                 self.routines[st[1]].pause()
             elif op == 'resume':
